@@ -361,7 +361,10 @@ func vxH08Block(n int, maxpend int, yield bool, oneSegment bool, staged bool) {
 	var stream []byte
 	for i := 0; i < n; i++ {
 		tags[i] = vxU16("tag")
-		vxAssume(tags[i] != NOTAG)
+		if i != blocked {
+			// the blocked request may carry any 16-bit tag, including the value NOTAG: only Tversion is excepted
+			vxAssume(tags[i] != NOTAG)
+		}
 		for j := 0; j < i; j++ {
 			vxAssume(tags[i] != tags[j])
 		}
@@ -495,5 +498,59 @@ func vxH08Fifo(g int, maxpend int, yield bool, oneSegment bool) {
 		k++
 	}
 	vxAssert(k == g, "every-member-of-the-tag-group-answered")
+	vxReach("done")
+}
+
+// H08.fifo-late: three requests under one tag, the third arriving after the first was answered while the second
+// is still executing in the implementation: it must wait for the second (one at a time, arrival order).
+func vxH08FifoLate(maxpend int) {
+	kit := vxNewKit(false, false, 8192, true)
+	kit.srv.Maxpend = maxpend
+	kit.ops.echo = true
+	nc := vxNewNetConn()
+	kit.srv.NewConn(nc)
+	if !vxH08Prologue(kit, nc) {
+		return
+	}
+	mark := len(nc.wire)
+	tagG := vxU16("tagG")
+	vxAssume(tagG != NOTAG)
+	hold := make(chan bool, 1)
+	entered := 0
+	running := 0
+	kit.ops.hook = func(op string, req *SrvReq) {
+		if op != "read" {
+			return
+		}
+		entered++
+		running++
+		vxAssert(running == 1, "tag-group-members-execute-one-at-a-time")
+		if req.Tc.Offset == 0x0202 {
+			<-hold // the second member is slow
+		}
+		running--
+	}
+	nc.in <- append(vxH08Read(tagG, 0x0101), vxH08Read(tagG, 0x0202)...)
+	vxQuiesce()
+	fs, ok := vxFrames(nc.wire[mark:])
+	vxAssert(ok && len(fs) == 1, "first-member-answered-second-executing")
+	vxAssert(entered == 2, "second-member-started-after-the-first")
+	nc.in <- vxH08Read(tagG, 0x0303)
+	vxQuiesce()
+	vxAssert(entered == 2, "late-member-waits-for-the-executing-one")
+	fs, ok = vxFrames(nc.wire[mark:])
+	vxAssert(ok && len(fs) == 1, "late-member-not-answered-before-its-predecessor")
+	hold <- true
+	vxQuiesce()
+	fs, ok = vxFrames(nc.wire[mark:])
+	vxAssert(ok && len(fs) == 3, "every-member-answered")
+	if ok && len(fs) == 3 {
+		for i, f := range fs {
+			b := byte(i + 1)
+			want := refEncode(Rread, tagG, []refItem{{kind: rkData, cnt: 2, b: []byte{b, b}}}, true)
+			vxAssert(refBytesEq(f.raw, want), "tag-group-answered-in-arrival-order")
+		}
+	}
+	vxAssert(entered == 3, "every-member-reached-the-implementation")
 	vxReach("done")
 }
